@@ -10,7 +10,7 @@ from pymap.concurrent import Event
 from pymap.config import IMAPConfig
 from pymap.context import socket_info, connection_exit
 from pymap.exceptions import NotAllowedError, NotSupportedError, \
-    CloseConnection, MailboxReadOnly
+    CloseConnection, MailboxNotFound, MailboxReadOnly
 from pymap.fetch import MessageAttributes
 from pymap.interfaces.login import LoginInterface
 from pymap.interfaces.session import SessionInterface
@@ -288,7 +288,9 @@ class ConnectionState:
         selected = self.selected
         self._deselect()
         if not selected.readonly:
-            await self.session.expunge_mailbox(selected)
+            # if the mailbox is gone there is nothing left to expunge
+            with suppress(MailboxNotFound):
+                await self.session.expunge_mailbox(selected)
         return ResponseOk(cmd.tag, cmd.command + b' completed.'), None
 
     async def do_expunge(self, cmd: ExpungeCommand) -> _CommandRet:
